@@ -50,7 +50,7 @@ ProbeAllowed(ev) ==
     [] ev.e = "lockfree" -> ev.free
     \* a sandbox created by one thread and then used and destroyed by another thread (each sandbox
     \* by one thread at a time): the results are those of a thread running alone
-    [] ev.e = "handoff" -> ev.use = "ok" /\ ev.destroy = "ok"
+    [] ev.e = "handoff" -> ev.use = "ok" /\ ev.destroy = "ok" /\ ("warm" \in DOMAIN ev => ev.warm \in {"ok", "-"})
     [] OTHER -> FALSE
 
 ThApply(st, ev) ==
